@@ -59,27 +59,66 @@ def resolve(expr, src):
     raise ValueError(expr)
 
 
+def split_args(text):
+    """top-level comma separated arguments of a call, `text` starting right after the opening parenthesis"""
+    args, depth, cur = [], 0, ""
+    for ch in text:
+        if ch in "([{":
+            depth += 1
+        elif ch in ")]}":
+            if depth == 0:
+                args.append(cur.strip())
+                return args
+            depth -= 1
+        if ch == "," and depth == 0:
+            args.append(cur.strip())
+            cur = ""
+        else:
+            cur += ch
+    raise ValueError("unterminated call")
+
+
 def check_gas(name):
-    """the gas settings `run_program` (crates/check) gives every program: cost per op and total limit.
-    `GasLimit::UNLIMITED` is resolved through its definition in crates/vm/src/lib.rs."""
+    """the gas settings `run_program` (crates/check) gives every program: cost per op and total limit, read off the arguments
+    of the `exec*` call (cost = 4th, limit = 5th argument of `exec_ops` / `exec_bytecode` / `exec`), identifiers resolved
+    through `let` bindings of the function and constants of the file; `GasLimit::UNLIMITED` through its definition in
+    crates/vm/src/lib.rs."""
     src = open(os.path.join(REPO, "crates/check/src/solution.rs")).read()
     body = src[src.index("fn run_program"):]
+    nxt = re.search(r"\n(pub )?(async )?fn ", body[10:])
+    if nxt:
+        body = body[:nxt.start() + 10]
+    call = re.search(r"\.(exec_ops|exec_bytecode|exec)\s*\(", body)
+    args = split_args(body[call.end():])
+
+    def unlet(e):
+        e = " ".join(e.split()).lstrip("&").strip()
+        for _ in range(4):
+            m = re.fullmatch(r"[a-z_][a-z0-9_]*", e)
+            if not m:
+                break
+            d = re.search(r"let (?:mut )?%s(?:\s*:\s*[^=;]+)?\s*=\s*([^;]+);" % e, body)
+            if not d:
+                break
+            e = " ".join(d.group(1).split()).lstrip("&").strip()
+        return e
+
     if name == "checkGasCost":
-        m = re.search(r"let gas_cost = \|_: &asm::Op\| ([^;]+);", body)
+        e = unlet(args[3])
+        m = re.fullmatch(r"(?:move\s+)?\|[^|]*\|\s*(?:->\s*[\w:]+\s*)?\{?\s*([^{};]+?)\s*\}?", e)
         return resolve(m.group(1), src)
-    m = re.search(r"let gas_limit = ([^;]+);", body)
-    e = " ".join(m.group(1).split())
+    e = unlet(args[4])
     vm = open(os.path.join(REPO, "crates/vm/src/lib.rs")).read()
     unl = re.search(r"pub const UNLIMITED: Self = Self \{([^}]*)\}", vm).group(1)
     unl_total = resolve(re.search(r"total:\s*([^,]+),", unl).group(1), vm)
-    if e == "GasLimit::UNLIMITED":
+    if e in ("GasLimit::UNLIMITED", "vm::GasLimit::UNLIMITED", "essential_vm::GasLimit::UNLIMITED"):
         return unl_total
-    m2 = re.fullmatch(r"GasLimit \{(.*)\}", e)
+    m2 = re.fullmatch(r"(?:\w+::)*GasLimit \{(.*)\}", e)
     if m2:
         t = re.search(r"total:\s*([^,}]+)", m2.group(1))
         if t:
             return resolve(t.group(1), src)
-        if "..GasLimit::UNLIMITED" in m2.group(1):
+        if "UNLIMITED" in m2.group(1):
             return unl_total
     raise ValueError(e)
 
